@@ -1,7 +1,10 @@
-JOBS = [
-    dict(name='fatal', src='c11.cpp', fn='h_fatal', defines={'QM_STR_CAP': 48, 'QM_LIST_CAP': 7, 'QM_HASH_CAP': 2, 'QM_FS_SLOTS': 3, 'QM_FS_FCAP': 16, 'QM_RX_MAXSEG': 16, 'VF_N': 2}, defines_thorough={'VF_N': 4, 'QM_FS_FCAP': 24}, unwind=50,
-         unwind_patterns={'h_fatal': 6, 'recursiveFlush': 6, 'Pipeline7process': 6}, unwindset={'_ZN8QtLogger14SimplePipeline14recursiveFlushEPKNS_8PipelineE': 4, '_ZN8QtLogger8Pipeline7processERNS_10LogMessageE': 4}, timeout=2400, mem=24, real_wrap_clock=True),
-]
-BOUNDS = {'quick': '0..2 preceding messages of 1..3 bytes, every write-buffer threshold 0..12 bytes (so that records may or may not have left the buffer), plain FileSink or RotatingFileSink, directly in the logger or in a nested pipeline; synchronous logger', 'thorough': '0..4 preceding messages'}
+D = {'QM_STR_CAP': 24, 'QM_LIST_CAP': 4, 'QM_HASH_CAP': 2, 'QM_FS_SLOTS': 2, 'QM_FS_FCAP': 12, 'QM_RX_MAXSEG': 16, 'VF_N': 1}
+UP = {'h_fatal': 6, 'recursiveFlush': 6, 'Pipeline7process': 6}
+REC = {'_ZN8QtLogger14SimplePipeline14recursiveFlushEPKNS_8PipelineE': 4, '_ZN8QtLogger8Pipeline7processERNS_10LogMessageE': 4}
+JOBS = []
+for r_, n_ in ((0, 0), (0, 1), (0, 2), (1, 0), (1, 1)):
+    JOBS.append(dict(name='fatal_r%dn%d' % (r_, n_), src='c11.cpp', fn='h_fatal', defines=dict(D, VF_ROTATING=r_, VF_NESTEDP=n_), defines_thorough={'VF_N': 3, 'QM_FS_FCAP': 20}, unwind=28, unwind_patterns=UP, unwindset=REC,
+                     timeout=2400, mem=20, real_wrap_clock=True, tiers=['quick', 'thorough'] if (r_, n_) in ((0, 0), (0, 1), (0, 2)) else ['thorough']))
+BOUNDS = {'quick': '0..1 preceding messages of 1..3 bytes, every write-buffer threshold 0..12 bytes (so that records may or may not have left the buffer), plain FileSink directly in the logger or in a nested pipeline or in the second of two nested pipelines (RotatingFileSink variants: thorough); synchronous logger', 'thorough': '0..4 preceding messages'}
 OUTSIDE = 'asynchronous mode (the property speaks of the synchronous logger); the one-line configure() front-end (see C19); a fatal raised while another thread is inside a sink (C02)'
 ASSUMPTIONS = ['Qt aborts the process right after the message handler returns from a fatal message', 'file-system model with user-space write buffer (qtmodel/qm_fs.h)']
